@@ -468,6 +468,10 @@ where
         return Err("itp: k_2 must be in (1, 1 + golden_ratio)".to_owned());
     }
 
+    if !n_0.is_sign_positive() {
+        return Err("itp: n_0 must be non-negative".to_owned());
+    }
+
     let mut left = initial.0;
     let mut right = initial.1;
     let mut f_left = f(left);
